@@ -442,6 +442,15 @@ func (s *System) exec(a Action, p *Peer, line *TraceLine) (injected uint64) {
 		if a.str("dev") == "omit" {
 			ca.Device = nil
 		}
+		if a.str("dev") == "other" {
+			// the client address names the device of another peer (the first one that is not the sender)
+			for _, pn := range s.topo.Peers {
+				if pn != p.name {
+					ca.Device = ptr(model.AddressDeviceType(s.peers[pn].devAddr))
+					break
+				}
+			}
+		}
 		if a.str("sdev") == "omit" {
 			sa.Device = nil
 		}
